@@ -106,6 +106,62 @@ class Ext:
         return '<ext {}>'.format(self.name)
 
 
+class SymSel:
+    """table[<symbolic byte>] for a concrete table of non-numeric values"""
+    __slots__ = ('table', 'index')
+
+    def __init__(self, table, index):
+        self.table = list(table)
+        self.index = index
+
+    def __eq__(self, o):
+        return isinstance(o, SymSel) and o.index == self.index and \
+            o.table == self.table
+
+    def __hash__(self):
+        return hash(repr(self.index))
+
+    def __repr__(self):
+        return 'Sel[{} entries]({})'.format(len(self.table), self.index)
+
+
+class SymCp:
+    """an unknown code point of the input text"""
+    __slots__ = ('name',)
+
+    def __init__(self, name):
+        self.name = name
+
+    def __eq__(self, o):
+        return isinstance(o, SymCp) and o.name == self.name
+
+    def __hash__(self):
+        return hash(('cp', self.name))
+
+    def __repr__(self):
+        return 'Cp({})'.format(self.name)
+
+
+class SymDictVal:
+    """d[<symbolic key>] for a concrete dictionary with many distinct values
+    (assumes the key is present; the KeyError path is not explored)"""
+    __slots__ = ('d', 'key')
+
+    def __init__(self, d, key):
+        self.d = d
+        self.key = tuple(key)
+
+    def __eq__(self, o):
+        return isinstance(o, SymDictVal) and o.d is self.d and \
+            o.key == self.key
+
+    def __hash__(self):
+        return hash(self.key)
+
+    def __repr__(self):
+        return 'DictVal{}'.format(self.key)
+
+
 class Opaque:
     """stand-in for an object of an external library: its methods are Python
     callables supplied by the rule (methods[name](cx, args, kwargs))"""
@@ -195,7 +251,7 @@ def nibble_of(ch):
 
 
 def is_sym(x):
-    return isinstance(x, (BV, HexCh, SymCh))
+    return isinstance(x, (BV, HexCh, SymCh, SymSel, SymCp, SymDictVal))
 
 
 # ------------------------------------------------------------ bit helpers
@@ -376,6 +432,7 @@ class Cx:
         self._disp = {}
         self._gcache = {}
         self._busy_consts = set()
+        self.sym_memo = {}
 
     # ---- exploration of symbolic branches ---------------------------------
     def explore(self, fn, max_paths=64):
@@ -390,6 +447,7 @@ class Cx:
             self.conds = []
             self.assumed = []
             self.steps = 0
+            self.sym_memo = {}
             try:
                 r = ('ok', fn())
             except PyRaise as e:
@@ -438,6 +496,12 @@ class Cx:
             return r if isinstance(op, ast.In) else not r
         if isinstance(a, BV) or isinstance(b, BV):
             return self.cmp_sym(op, a, b)
+        if isinstance(a, (SymCp, SymSel, SymDictVal)) or \
+                isinstance(b, (SymCp, SymSel, SymDictVal)):
+            if isinstance(op, (ast.Eq, ast.NotEq)) and type(a) is type(b) \
+                    and a == b:
+                return isinstance(op, ast.Eq)
+            raise CxError('comparison of an unknown character / table value')
         if isinstance(a, (HexCh, SymCh)) or isinstance(b, (HexCh, SymCh)):
             if isinstance(op, (ast.Eq, ast.NotEq)):
                 if type(a) is type(b):
@@ -620,7 +684,10 @@ class Cx:
                 if x.width > 8:
                     raise CxError('a value wider than 8 bits is stored as a '
                                   'byte: {}'.format(x))
-            elif isinstance(x, (HexCh, SymCh)):
+            elif isinstance(x, (HexCh, SymCh, SymDictVal)):
+                pass
+            elif isinstance(x, SymSel) and all(
+                    isinstance(t, int) for t in x.table):
                 pass
             elif isinstance(x, str) and len(x) == 1:
                 x = ord(x)
@@ -646,6 +713,8 @@ class Cx:
             return [self.conv(x) for x in v]
         if isinstance(v, list):
             return [self.conv(x) for x in v]
+        if isinstance(v, CE.NTValue):
+            return v
         if isinstance(v, tuple) and type(v) is not tuple:
             return tuple(self.conv(x) for x in v)
         if isinstance(v, bytearray):
@@ -857,6 +926,8 @@ class Cx:
                 raise PyRaise('AttributeError', (name,))
         if isinstance(v, CE.Instance):
             raise CxError('attribute of a module-level instance')
+        if isinstance(v, SymSel):
+            return SymSel([self.getattr(x, name) for x in v.table], v.index)
         if isinstance(v, Opaque):
             if name in v.attrs:
                 return v.attrs[name]
@@ -1484,12 +1555,16 @@ class Cx:
                         1 << idx.width):
                     return table_lookup(its, idx)
                 if isinstance(base, (list, tuple)) and len(its) >= (
-                        1 << idx.width) and idx.width <= 4:
-                    raise CxError('symbolic index into a symbolic table')
+                        1 << idx.width) and not any(
+                            is_sym(x) or isinstance(x, Seq) for x in its):
+                    return SymSel(its, idx)
             if isinstance(base, dict):
                 raise CxError('symbolic dictionary key')
             raise CxError('symbolic index')
         if isinstance(base, dict):
+            k = self.sym_key(idx)
+            if k is not None:
+                return self.dict_lookup_sym(base, k)
             try:
                 return base[idx]
             except KeyError:
@@ -1554,6 +1629,46 @@ class Cx:
                     rec(i + 1, f, c2)
         rec(0, Frame(fr.module, {}, fr.func, parent=fr), None)
         return acc[0]
+
+    @staticmethod
+    def sym_key(idx):
+        """tuple of items when idx is a text key made of unknown code points
+        (a SymCp or a str Seq containing one), else None"""
+        if isinstance(idx, SymCp):
+            return (idx,)
+        if isinstance(idx, Seq) and idx.kind == 'str' and any(
+                isinstance(x, SymCp) for x in idx.items):
+            return tuple(idx.items)
+        return None
+
+    def dict_lookup_sym(self, d, key):
+        mk = (id(d), key)
+        if mk in self.sym_memo:
+            r = self.sym_memo[mk]
+            if isinstance(r, PyRaise):
+                raise r
+            return r
+        try:
+            r = self._dict_lookup_sym(d, key)
+        except PyRaise as e:
+            self.sym_memo[mk] = e
+            raise
+        self.sym_memo[mk] = r
+        return r
+
+    def _dict_lookup_sym(self, d, key):
+        vals = []
+        for v in d.values():
+            if not any(v is x or (type(v) is type(x) and v == x)
+                       for x in vals):
+                vals.append(v)
+        if len(vals) > 4:
+            self.assumed.append(('key present', repr(key)))
+            return SymDictVal(d, key)
+        for v in vals:
+            if self.decide(('dict value', id(d), repr(key), repr(v))):
+                return v
+        raise PyRaise('KeyError', (repr(key),))
 
     def e_Call(self, e, fr):
         if isinstance(e.func, ast.Name) and e.func.id == 'sum' and \
@@ -2209,12 +2324,18 @@ def call_method(cx, recv, name, args, kw):
         tgt.sort()
         return None
     # ---- queries ---------------------------------------------------------------
+    if name == '__getitem__' and len(args) == 1:
+        return cx.index(recv, args[0])
     if name == 'join':
         parts = cx.items(args[0])
         out = []
         for i, p in enumerate(parts):
             if i:
                 out.extend(its)
+            if isinstance(p, SymSel) and all(
+                    isinstance(t, str) for t in p.table) and k == 'str':
+                out.append(p)
+                continue
             pk = cx.kind_of(p)
             if k == 'str' and pk != 'str':
                 raise PyRaise('TypeError', ('sequence item: expected str',))
@@ -2489,6 +2610,15 @@ def str_format(cx, fmt, args, kw):
 
 
 def dict_method(cx, d, name, args, kw):
+    if name == '__getitem__' and len(args) == 1:
+        return cx.index(d, args[0])
+    if args and cx.sym_key(args[0]) is not None and name == 'get':
+        try:
+            return cx.dict_lookup_sym(d, cx.sym_key(args[0]))
+        except PyRaise as e:
+            if e.tname == 'KeyError':
+                return args[1] if len(args) > 1 else None
+            raise
     if any(is_sym(a) for a in args[:1]):
         raise CxError('symbolic dictionary key')
     if name == 'get':
